@@ -56,13 +56,27 @@ def rule_r1(chk, prog):
     paths = loop_body_paths(cfg, loops[0])
     for p in paths:
         apps = path_method_calls(p, attr='append')
+        # "res += a + b + c" (bytes / bytearray accumulator) emits a, b, c
+        emitted = []
+        for (i, n, c) in apps:
+            if c.args:
+                emitted.append((i, c.args[0], unparse(c.func.value), c))
+        for i, n in enumerate(p.nodes):
+            a_ = n.ast
+            if n.kind == 'stmt' and isinstance(a_, ast.AugAssign) and \
+                    isinstance(a_.op, ast.Add) and isinstance(
+                        a_.target, ast.Name):
+                def flat(e_):
+                    if isinstance(e_, ast.BinOp) and isinstance(
+                            e_.op, ast.Add):
+                        return flat(e_.left) + flat(e_.right)
+                    return [e_]
+                for piece in flat(a_.value):
+                    emitted.append((i, piece, a_.target.id, a_))
+        emitted.sort(key=lambda t: t[0])
         packs = []
         seq = []
-        for (i, n, c) in apps:
-            if not c.args:
-                continue
-            a = c.args[0]
-            recv = unparse(c.func.value)
+        for (i, a, recv, c) in emitted:
             if isinstance(a, ast.Constant) and isinstance(a.value, bytes):
                 seq.append(('tag', a.value, recv, c))
             elif isinstance(a, ast.Call) and call_name(a) == 'struct.pack':
@@ -274,6 +288,16 @@ def rule_r1(chk, prog):
                   f'{unparse(rfmt)}', loc=m.loc(uc), nontrivial=True)
         # header slice state[i+1 : i+1+size]
         sl = uc.args[1]
+        if isinstance(sl, ast.Name):
+            # "header = state[a:b]; unpack(fmt, header)"
+            slname = sl.id
+            for n_ in rr['path'].nodes[:-1]:
+                a_ = n_.ast
+                if n_.kind == 'stmt' and isinstance(a_, ast.Assign) and any(
+                        isinstance(t_, ast.Name) and t_.id == slname
+                        for t_ in a_.targets) and isinstance(
+                            a_.value, ast.Subscript):
+                    sl = a_.value
         ok = isinstance(sl, ast.Subscript) and id(sl) in rr['sl']
         if ok:
             lo, hi = rr['sl'][id(sl)]
